@@ -19,6 +19,7 @@
   the `_partial` theorems and is checked by the compiled driver on every run (`c07m funcok`).
 -/
 import Gzx.Proofs.QREncPipeline
+import Gzx.Proofs.QREncEncode
 import Gzx.Proofs.QREncVersion
 import Gzx.Proofs.QREncKernels
 import Gzx.Proofs.QREncFuncAll
@@ -152,28 +153,88 @@ theorem mirror_chooseVersion_eq_min (ec : EC) (m : Mode) (hdr data : Nat) :
       | some v => .ok (versionInfo v)
       | none => .error .writer := recommendVersion_eq_min ec m hdr data
 
+/-! ### data segments -/
+
+/-- `mirror_segments_eq_ref`: the index loops of `appendNumericBytes` (3/2/1 digits in 10/7/4 bits),
+    `appendAlphanumericBytes` (pairs in 11 bits, a single in 6, through `getAlphanumericCode` and the 96-entry
+    table) and `append8BitBytes` produce the reference packings; `appendLengthInfo` writes the count in the version's
+    count width. -/
+theorem mirror_segments_eq_ref :
+    (∀ (content : List Nat) (bits : List Bool), (∀ c ∈ content, isDigit c) →
+      appendNumericBytes content bits = .ok (bits ++ packNumeric (content.map (· - 48)))) ∧
+    (∀ (content codes : List Nat) (bits : List Bool), content.mapM alnumCode = some codes →
+      appendAlphanumericBytes content bits = .ok (bits ++ packAlnum codes)) ∧
+    (∀ (bs : List Nat) (bits : List Bool), append8BitBytes (some bs) bits = .ok (bits ++ bitsOfBytes bs)) ∧
+    (∀ (v : Nat) (m : Mode) (count : Nat) (bits : List Bool), 1 ≤ v → v ≤ 40 → count < 2 ^ countBits m v →
+      appendLengthInfo (count : Int) (versionInfo v) m bits = .ok (bits ++ toBitsBE (countBits m v) count)) :=
+  ⟨fun c b h => appendNumericBytes_eq c h b, fun c k b h => appendAlphanumericBytes_eq c k h b,
+   fun bs b => append8BitBytes_eq bs b, fun v m c b h1 h40 h => appendLengthInfo_eq v h1 h40 m c h b⟩
+
+example : ∀ c ∈ [48, 49, 57], isDigit c := by intro c hc; unfold isDigit; simp at hc; omega
+
 /-! ### composition -/
 
-/-- `mirror_encode_eq_ref`, versions 1..10: everything `Encoder_encode` does once mode, header, data bits and
-    version are fixed — terminateBits, interleaveWithECBytes, NewByteMatrix, the forced mask pattern or
-    chooseMaskPattern, the final MatrixUtil_buildMatrix — yields the reference symbol of the payload
-    (`refMatrix` of `finalCodewords` of `terminate`), with the forced mask or the reference's own choice. -/
-theorem mirror_encode_eq_ref {K : Kernels} (hK : KernelsOK K) (v : Nat) (h1 : 1 ≤ v) (h10 : v ≤ 10)
-    (ec : EC) (forced : Option Nat) (hforced : ∀ k, forced = some k → k < 8) (payload : List Bool)
-    (hfit : payload.length ≤ 8 * dataCodewords v ec) :
-    backHalf K v ec forced payload =
-      .ok (((forced.getD (chooseMask v ec (refCodewords v ec payload)) : Nat) : Int),
-        refByteMatrix v ec (forced.getD (chooseMask v ec (refCodewords v ec payload))) (refCodewords v ec payload)) :=
-  backHalf_eq_ref hK v h1 (by omega) (funcOK_small v h1 h10) ec forced hforced payload hfit
+/-- `mirror_encodeBack_eq_ref_partial`: everything `Encoder_encode` does once mode, header, data bits and version
+    are fixed — terminateBits, interleaveWithECBytes, NewByteMatrix, the QR_MASK_PATTERN hint (int / string / other,
+    valid or not) or chooseMaskPattern, the final MatrixUtil_buildMatrix — yields the reference symbol of the
+    payload, `refMatrix` of `finalCodewords` of `terminate`, with the hinted mask or the reference's own choice.
+    (Given `FuncOK v`; versions 1..10: `funcOK_small`.) -/
+theorem mirror_encodeBack_eq_ref_partial {K : Kernels} (hK : KernelsOK K) (v : Nat) (h1 : 1 ≤ v) (h40 : v ≤ 40)
+    (hf : FuncOK v) (maskHint : Option HintVal) (f : FrontResult) (hv : f.version = versionInfo v)
+    (hfit : f.headerAndDataBits.length ≤ 8 * dataCodewords v f.ec) :
+    ∃ t, encodeBack K maskHint f = .ok t ∧ t.mode = f.mode ∧ t.version = v ∧ t.headerAndDataBits = f.headerAndDataBits ∧
+      t.maskPattern = ((finalMask maskHint v f.ec f.headerAndDataBits : Nat) : Int) ∧
+      t.terminated = bitsOfBytes (terminate (dataCodewords v f.ec) f.headerAndDataBits) ∧
+      t.finalBits = bitsOfBytes (refCodewords v f.ec f.headerAndDataBits) ∧
+      t.matrix = refByteMatrix v f.ec (finalMask maskHint v f.ec f.headerAndDataBits) (refCodewords v f.ec f.headerAndDataBits) :=
+  encodeBack_eq_ref hK v h1 h40 hf maskHint f hv hfit
 
-/-- `mirror_encode_eq_ref_partial`: the same for versions 1..40 given `FuncOK v` -/
-theorem mirror_encode_eq_ref_partial {K : Kernels} (hK : KernelsOK K) (v : Nat) (h1 : 1 ≤ v) (h40 : v ≤ 40)
-    (hf : FuncOK v) (ec : EC) (forced : Option Nat) (hforced : ∀ k, forced = some k → k < 8) (payload : List Bool)
-    (hfit : payload.length ≤ 8 * dataCodewords v ec) :
-    backHalf K v ec forced payload =
-      .ok (((forced.getD (chooseMask v ec (refCodewords v ec payload)) : Nat) : Int),
-        refByteMatrix v ec (forced.getD (chooseMask v ec (refCodewords v ec payload))) (refCodewords v ec payload)) :=
-  backHalf_eq_ref hK v h1 h40 hf ec forced hforced payload hfit
+/-- the same without per-version hypothesis for versions 1..10 -/
+theorem mirror_encodeBack_eq_ref {K : Kernels} (hK : KernelsOK K) (v : Nat) (h1 : 1 ≤ v) (h10 : v ≤ 10)
+    (maskHint : Option HintVal) (f : FrontResult) (hv : f.version = versionInfo v)
+    (hfit : f.headerAndDataBits.length ≤ 8 * dataCodewords v f.ec) :
+    ∃ t, encodeBack K maskHint f = .ok t ∧ t.version = v ∧
+      t.matrix = refByteMatrix v f.ec (finalMask maskHint v f.ec f.headerAndDataBits) (refCodewords v f.ec f.headerAndDataBits) := by
+  obtain ⟨t, ht, _, hv', _, _, _, _, hm⟩ := encodeBack_eq_ref hK v h1 (by omega) (funcOK_small v h1 h10) maskHint f hv hfit
+  exact ⟨t, ht, hv', hm⟩
+
+/-- `mirror_encode_eq_ref_partial` — the whole `Encoder_encode` mirror = the reference construction:
+    for every content, level, CHARACTER_SET / GS1_FORMAT / QR_VERSION / QR_MASK_PATTERN hints (of any dynamic type),
+    with `m` the mode `chooseMode` returns and a data segment whose packing is known (`Segment`: proved for numeric,
+    alphanumeric and byte mode by `segment_numeric/alnum/byte`; for Kanji mode it is a hypothesis — the gap:
+    `appendKanjiBytes` = `packKanji` is correspondence-only), the call settles on the reference's version
+    (`versionChoice`: the requested version iff it is in 1..40 and fits, else `minVersion`), writes the reference
+    payload (header segments, character count, data) and returns the reference symbol with the hinted or the
+    reference's own mask — and returns a WriterException exactly when no version is admissible.
+    `FuncOK` is needed for the version chosen only (versions 1..10: `funcOK_small`). -/
+theorem mirror_encode_eq_ref_partial {K : Kernels} (hK : KernelsOK K)
+    (inp : EncInput) (ec : EC) (hec : ecOfInt inp.ecLevel = some ec)
+    (hcs : ∀ cs, inp.charset = some cs → cs.known = true) (m : Mode)
+    (hmode : chooseMode inp.content (match inp.charset with | some cs => cs.isSJIS | none => false) inp.sjis = .ok m)
+    (bytes : List Nat) (count : Nat) (data : List Bool) (seg : Segment inp m bytes count data)
+    (he : ∀ e, eciOf inp m = some e → e < 128)
+    (hfunc : ∀ v, versionChoice inp ec m (headerBits (eciOf inp m) (gs1OfHint inp.gs1) m).length data.length = some v → FuncOK v) :
+    match versionChoice inp ec m (headerBits (eciOf inp m) (gs1OfHint inp.gs1) m).length data.length with
+    | some v =>
+      ∃ t, encode K inp = .ok t ∧ t.mode = m ∧ t.version = v ∧
+        t.headerAndDataBits = payloadBits v (headerBits (eciOf inp m) (gs1OfHint inp.gs1) m) m count data ∧
+        t.maskPattern = ((finalMask inp.mask v ec t.headerAndDataBits : Nat) : Int) ∧
+        t.finalBits = bitsOfBytes (refCodewords v ec t.headerAndDataBits) ∧
+        t.matrix = refByteMatrix v ec (finalMask inp.mask v ec t.headerAndDataBits) (refCodewords v ec t.headerAndDataBits)
+    | none => encode K inp = .error .writer :=
+  encode_eq_ref hK inp ec hec hcs m hmode bytes count data seg he hfunc
+
+/-- the three proved segment kinds -/
+theorem mirror_segment_kinds (inp : EncInput) :
+    (∀ bs, inp.encoded = some bs → Segment inp .byte bs bs.length (bitsOfBytes bs)) ∧
+    ((∀ c ∈ inp.content, isDigit c) →
+      Segment inp .numeric inp.content inp.content.length (packNumeric (inp.content.map (· - 48)))) ∧
+    (∀ codes, inp.content.mapM alnumCode = some codes →
+      Segment inp .alnum inp.content inp.content.length (packAlnum codes)) :=
+  ⟨fun bs h => segment_byte inp bs h, fun h => segment_numeric inp h, fun codes h => segment_alnum inp codes h⟩
+
+example : ∃ inp : EncInput, ecOfInt inp.ecLevel = some .L ∧ inp.encoded = some [72, 105] :=
+  ⟨{ content := [72, 105], runeCount := 2, ecLevel := 1, encoded := some [72, 105] }, rfl, rfl⟩
 
 /-! ### the kernels -/
 
